@@ -188,13 +188,22 @@ int main(void)
 		words_to_bytes(rk, sk, 4 * (NR + 1));
 	}
 #elif KS == 2
-	{	/* aes_big decryption schedule: InvMixColumns already applied to the
-		   inner round keys (FIPS-197 5.3.5); undo it with MixColumns */
-		uint32_t sk[60];
+	{	/* aes_big decryption schedule: the encryption schedule (decided by
+		   KS 1 to be FIPS-197 KeyExpansion) with InvMixColumns applied to the
+		   inner round keys (FIPS-197 5.3.5).  Word-level back end: the
+		   schedule inside br_aes_big_keysched_inv and the one computed here
+		   are the same terms. */
+		uint32_t sk[60], se[60];
 		unsigned nr = br_aes_big_keysched_inv(sk, key, KLEN);
 		CHECK(nr == NR, "br_aes_big_keysched_inv returns the round count");
-		words_to_bytes(rk, sk, 4 * (NR + 1));
-		for (int i = 4; i < 4 * NR; i++) ref_mix_column(rk + 4 * i, 0);
+		br_aes_keysched(se, key, KLEN);
+		words_to_bytes(rk, se, 4 * (NR + 1));
+		for (int i = 4; i < 4 * NR; i++) ref_mix_column(rk + 4 * i, 1);
+		for (int i = 0; i < 4 * (NR + 1); i++)
+			CHECK(sk[i] == ((uint32_t)rk[4 * i] << 24 | (uint32_t)rk[4 * i + 1] << 16 | (uint32_t)rk[4 * i + 2] << 8 | rk[4 * i + 3]),
+				"br_aes_big_keysched_inv == br_aes_keysched with InvMixColumns on the inner round keys");
+		WITNESS_POINT("decryption key schedule");
+		return 0;
 	}
 #elif KS == 3
 	{	/* aes_ct: expanded keys hold the round key in both lanes.  Decoded
@@ -256,7 +265,7 @@ int main(void)
 		return 0;
 	}
 #endif
-#if KS != 5
+#if KS != 5 && KS != 2
 	check_expansion(rk, key);
 	WITNESS_POINT("key schedule");
 	return 0;
